@@ -38,6 +38,11 @@ EmptyIterKinds == {"nil_slice", "empty_slice", "nil_map", "empty_map", "empty_ar
 \* arrays that stand for a typed Go slice / array in context data ("strs" = []string, "ints" = []int, "array" = [n]int)
 AT(xs, go) == [t |-> "arr", xs |-> xs, go |-> go]
 
+\* a Go struct value with the given fields (the harness has one struct type with these field names)
+Rec(f) == [t |-> "rec", f |-> f]
+\* trusted HTML supplied through the HTMLer interface instead of template.HTML
+HTMLer(s) == [t |-> "html", s |-> s, go |-> "htmler"]
+
 \* ---- floats: exact dyadic rationals num / 2^exp (all of them are exact float64 values)
 RECURSIVE Pow2(_)
 Pow2(e) == IF e = 0 THEN 1 ELSE 2 * Pow2(e - 1)
